@@ -124,6 +124,7 @@ func runC16(c *vf.Case) {
 	var parkedFrame websocket.Frame
 	var parkedErr error
 	overlaps, syncBlocks := 0, 0
+	setPayloadTwice := 0
 	secondIssued, secondCalls := false, 0
 	var secondErr error
 	thirdIssued, thirdCalls := false, 0
@@ -315,6 +316,15 @@ func runC16(c *vf.Case) {
 					n = r.Intn(126)
 				}
 				payload = r.Bytes(n)
+				if r.Chance(1, 3) {
+					// the caller changes its mind: a payload of another length class was set before the final one
+					other := []int{0, 5, 100, 200, 300, 70000}[r.Intn(6)]
+					if op >= 8 {
+						other = r.Intn(126)
+					}
+					f.SetPayload(r.Bytes(other))
+					setPayloadTwice++
+				}
 				f.SetPayload(payload)
 				if lastLen > n && lastLen >= 0 {
 					poolReuseLongShort++
@@ -399,6 +409,7 @@ func runC16(c *vf.Case) {
 		}
 	}
 	c.Count("pool_reuses_longer_then_shorter", poolReuseLongShort)
+	c.Count("caller_built_frames_with_setpayload_called_twice", setPayloadTwice)
 	c.Count("payloadless_caller_frames", payloadless)
 	c.Count("writes_with_transport_temporarily_unwritable", partial)
 	c.Count("refused_oversize_writes", refused)
